@@ -831,16 +831,36 @@ func RunC16(ctx *core.Ctx, r *core.Rng) {
 			}
 			ctx.Stats.Inc("fault_fired/another_index_built_before_the_queries")
 		}
-		if gran == "op" && r.Chance(0.0015) { // tens of thousands of intervals, with a GOMAXPROCS of its own
-			big := r.Range(16384, 21000)
+		if gran == "op" && r.Chance(0.002) { // thousands of intervals, with a GOMAXPROCS of its own
+			big := core.Pick(r, []int{r.Range(4096, 5000), r.Range(4096, 9000), r.Range(16384, 21000)})
+			sorted := r.Bool() // starts already ascending, as from a sorted BED file: long intervals containing runs of short ones
 			rc.Starts, rc.Ends = nil, nil
+			pos := -50
 			for i := 0; i < big; i++ {
 				s0 := r.Range(-50, 1000)
+				if sorted {
+					pos += r.Range(0, 2)
+					s0 = pos
+				}
+				e0 := s0 + r.Range(-1, 30)
+				if r.Chance(0.02) {
+					e0 = s0 + r.Range(100, 4000) // a long one
+				}
 				rc.Starts = append(rc.Starts, s0)
-				rc.Ends = append(rc.Ends, s0+r.Range(-1, 30))
+				rc.Ends = append(rc.Ends, e0)
 			}
 			rc.Procs = core.Pick(r, []int{1, 3, 4, 5, 7, 8})
-			ctx.Stats.Inc("probe/index_over_16384_intervals")
+			// one caller sweeps a few hundred positions
+			var sweep []RegOp
+			for q := 0; q < 400; q++ {
+				i := r.Intn(big)
+				sweep = append(sweep, RegOp{Op: "at", Pos: core.Pick(r, []int{rc.Starts[i], rc.Ends[i], rc.Ends[i] - 1, rc.Starts[i] + 1})})
+			}
+			rc.Tasks = append(rc.Tasks, sweep)
+			ctx.Stats.Inc("probe/index_over_4096_intervals")
+			if sorted {
+				ctx.Stats.Inc("probe/index_over_4096_intervals_with_ascending_starts")
+			}
 		}
 		if r.Chance(0.3) { // reusable buffers / truncated slices: spare capacity behind the arguments
 			rc.StartsSpare = core.Pick(r, []int{1, 2, len(rc.Starts) + len(rc.Ends), 2*len(rc.Starts) + 3, 64})
